@@ -89,6 +89,43 @@ def new_cov(rule):
             "exhaustive_generators": 0, "trace_events": 0, "exhaustive": False}
 
 
+def concurrent_stage(prop, wd, scns, verdict, cov, plans, label="conc"):
+    """Runs scenario files on the real crate under harness-native schedule sources (every run is judged by
+    TLC through MQAbsTrace). plans: list of (mode, runs, bound)."""
+    by_name = {s["name"]: s for s in scns}
+    scn_file = os.path.join(wd, "%s.scn.ndjson" % label)
+    vlib.write_scenarios(scn_file, scns)
+    all_traces = []
+    for (mode, runs, bound) in plans:
+        tag = "%s_%s%d" % (label, mode, bound)
+        traces, scheds, st = vlib.explore(scn_file, wd, tag, mode, runs=runs, bound=bound)
+        log("  [run] %s: %d scenarios, %s bound=%d: %d runs, %d distinct traces, %d with preemptions, outcomes %s%s" %
+            (label, len(scns), mode, bound, st["runs"], st["distinct_traces"], st["nontrivial"], st["outcomes"],
+             "" if st["exhaustive"] or mode != "dfs" else " (run cap reached: not exhaustive)"))
+        for c in st["crashes"]:
+            verdict.crash(c, wd)
+        val = vlib.validate_many(traces, wd)
+        log("  [tlc] trace validation: %d accepted, %d rejected (%d events, %d states)" %
+            (val["accepted"], len(val["rejected"]), val["events"], val["states"]))
+        sb = vlib.load_scheds(scheds)
+        for rej in val["rejected"]:
+            verdict.judge_rejected(rej, wd, sb, by_name, source=tag)
+        cov["states"] += val["states"]
+        cov["transitions"] += val["generated"]
+        cov["traces_validated_against_impl"] += val["accepted"]
+        cov["evaluations"] += st["runs"]
+        cov["distinct_nontrivial"] += st["nontrivial"]
+        cov["trace_events"] += val["events"]
+        cov.setdefault("stuck_runs", 0)
+        cov["stuck_runs"] += sum(v for k, v in st["outcomes"].items() if k != "Done")
+        if mode == "dfs":
+            cov.setdefault("dfs_exhaustive", True)
+            cov["dfs_exhaustive"] = cov["dfs_exhaustive"] and st["exhaustive"]
+        all_traces += traces
+    if not cov["samples"]:
+        cov["samples"] = vlib.sample_runs(all_traces, 2)
+
+
 # =========================================================================== C09
 def check_C09(tier):
     t0 = time.time()
@@ -118,7 +155,187 @@ def check_C09(tier):
     return rc
 
 
-CHECKS = {"C09": check_C09}
+import scenarios as sc  # noqa: E402
+
+
+def plans_for(tier, dfs_cap_quick=600, dfs_cap_thorough=20000, rnd_quick=150, rnd_thorough=3000):
+    if tier == "quick":
+        return [("dfs", dfs_cap_quick, 2), ("random", rnd_quick, 0), ("pct", rnd_quick, 0)]
+    return [("dfs", dfs_cap_thorough, 3), ("random", rnd_thorough, 0), ("pct", rnd_thorough, 0)]
+
+
+def caps_for(tier):
+    return (1, 2) if tier == "quick" else (1, 2, 4)
+
+
+def generic_check(prop, tier, own, scns, plans, rule, gens=None, extra_assume=(), models=None):
+    t0 = time.time()
+    wd = vlib.workdir(prop)
+    v = vlib.Verdict(prop, own)
+    cov = new_cov(rule)
+    if models:
+        for m in models:
+            m(wd, v, cov, tier)
+    if gens:
+        sequential_stage(prop, wd, gens, v, cov)
+    if scns:
+        cov["scenarios"] = len(scns)
+        concurrent_stage(prop, wd, scns, v, cov, plans)
+    rc = v.finish()
+    cov["known_findings_printed"] = sorted(v.known_printed.keys())
+    vlib.write_evidence(prop, tier, "model_checking", cov, time.time() - t0, len(v.violations),
+                        ASSUME_COMMON + list(extra_assume))
+    return rc
+
+
+RULE_CONC = ("scenario families (topology x program templates x capacity x wait strategy) run on the real crate under "
+             "the deterministic scheduler: preemption-bounded DFS over shim-op interleavings (bound and run cap per "
+             "tier), uniform random walks and PCT; every distinct recorded API/ledger trace is validated by TLC against "
+             "MQAbsTrace (linearisation search); distinct_nontrivial = distinct (scenario, schedule) pairs with at "
+             "least one preemption")
+
+
+def check_C01(tier):
+    caps = caps_for(tier)
+    scns = (sc.traffic("C01", "bcast", caps=caps) + sc.traffic("C01", "mpmc", caps=caps) +
+            sc.uni_traffic("C01", "bcast", caps=caps) + sc.uni_traffic("C01", "mpmc", caps=caps) +
+            sc.traffic("C01", "bcast", fut=True, caps=caps[:2]) + sc.traffic("C01", "mpmc", fut=True, caps=caps[:1]))
+    return generic_check("C01", tier, ["C01C02"], scns, plans_for(tier), RULE_CONC)
+
+
+def check_C02(tier):
+    caps = caps_for(tier)
+    shapes = [(2, [1, 1], 2, "recv", False, 3), (2, [2], 2, "recv", False, 2), (2, [1], 2, "brecv", True, 0),
+              (2, [1, 1], 1, "brecv", True, 0), (1, [1, 1], 3, "recv", False, 3)]
+    scns = (sc.traffic("C02", "bcast", caps=caps, shapes=shapes) + sc.traffic("C02", "mpmc", caps=caps, shapes=shapes) +
+            sc.population("C02p", "bcast", caps=caps[:2]))
+    return generic_check("C02", tier, ["C01C02"], scns, plans_for(tier), RULE_CONC)
+
+
+def check_C03(tier):
+    caps = caps_for(tier)
+    shapes = [(1, [1], 4, "recv", False, 2), (1, [1, 1], 3, "recv", False, 1), (2, [1], 3, "recv", False, 2),
+              (2, [2], 2, "brecv", True, 0), (1, [2], 3, "brecv", True, 0), (2, [1, 1], 2, "recv", False, 1)]
+    scns = (sc.traffic("C03", "bcast", caps=caps, shapes=shapes, probe=True) +
+            sc.traffic("C03", "mpmc", caps=caps, shapes=shapes, probe=True) +
+            sc.traffic("C03", "bcast", fut=True, caps=caps[:2], shapes=shapes[:3], probe=True))
+    # capacity normalisation: requested capacities 0..9, fill a fresh queue, drain, fill again
+    gens = []
+    for cap in range(0, 10):
+        for (fam, fut) in (FAMILIES if tier == "thorough" else FAMILIES[:2]):
+            gens.append(dict(family=fam, fut=fut, cap=cap, depth=3, ops=["fillprobe"]))
+    return generic_check("C03", tier, ["C03"], scns, plans_for(tier), RULE_CONC +
+                         "; plus a fill/drain/fill probe for every requested capacity 0..9", gens=None,
+                         models=[lambda wd, v, cov, tier: capacity_probe(wd, v, cov, tier)])
+
+
+def capacity_probe(wd, v, cov, tier):
+    scns = []
+    for cap in range(0, 10):
+        for (fam, fut) in FAMILIES:
+            ops = [sc.S("fill", "tx", v=1000, n=40), sc.S("drain", "rx"), sc.S("fill", "tx", v=2000, n=40),
+                   sc.S("recv", "rx"), sc.S("send", "tx", v=3000), sc.S("send", "tx", v=3001), sc.S("drop", "tx"),
+                   sc.S("drain", "rx"), sc.S("drop", "rx")]
+            scns.append(vlib.seq_to_scenario("C03cap-%s-%d" % (fam_tag(fam, fut), cap), fam, fut, cap, ops,
+                                             spins=[0, 0] if (fut and fam == "bcast") else None))
+    concurrent_stage("C03", wd, scns, v, cov, [("default", 1, 0)], label="capprobe")
+
+
+def check_C04(tier):
+    caps = caps_for(tier)
+    shapes = [(1, [2], 4, "brecv", True, 0), (1, [2], 3, "recv", False, 2), (1, [3], 3, "recv", False, 1),
+              (1, [2, 1], 3, "recv", False, 1), (2, [2], 2, "recv", False, 2)]
+    scns = (sc.traffic("C04", "bcast", caps=caps, shapes=shapes) + sc.traffic("C04", "mpmc", caps=caps, shapes=shapes) +
+            sc.uni_traffic("C04", "bcast", caps=caps) + sc.uni_traffic("C04", "mpmc", caps=caps) +
+            sc.population("C04p", "bcast", caps=caps[:2]))
+    return generic_check("C04", tier, ["C04"], scns, plans_for(tier), RULE_CONC +
+                         "; the payload's Clone and the view closure contain a scheduling point, so the real code is "
+                         "interleaved inside the clone/view")
+
+
+def check_C05(tier):
+    caps = caps_for(tier)
+    scns = (sc.no_receivers("C05n", "bcast", caps=caps[:2]) + sc.no_receivers("C05n", "mpmc", caps=caps[:2]) +
+            sc.traffic("C05", "bcast", caps=caps[:2]) + sc.traffic("C05", "mpmc", caps=caps[:2]) +
+            sc.uni_traffic("C05", "mpmc", caps=caps[:2]) + sc.population("C05p", "mpmc", caps=caps[:2]) +
+            sc.disconnect("C05d", "mpmc", caps=caps[:2]) + sc.known_mpmc_two_streams("C05k"))
+    depth = 4 if tier == "quick" else 5
+    gens = []
+    for (fam, fut) in FAMILIES:
+        gens.append(dict(family=fam, fut=fut, cap=1 if fam == "mpmc" else 2, depth=depth,
+                         ops=[o for o in alphabet(fam, fut) if o not in ("brecv", "bview", "poll_complete")]))
+    return generic_check("C05", tier, ["C05"], scns, plans_for(tier), RULE_CONC +
+                         "; plus all sequential histories to the depth bound generated from MQAbsGen (teardown in "
+                         "every order: whatever is alive at the end is dropped with the ledger recording)", gens=gens)
+
+
+def check_C06(tier):
+    caps = caps_for(tier)
+    scns = (sc.traffic("C06", "bcast", caps=caps, probe=True) + sc.traffic("C06", "mpmc", caps=caps, probe=True) +
+            sc.remove_stream("C06r", "bcast", caps=caps[:2]) + sc.population("C06p", "bcast", caps=caps[:2]) +
+            sc.population("C06p", "mpmc", caps=caps[:2]) + sc.add_stream_scn("C06a", caps=caps[:2]))
+    return generic_check("C06", tier, ["C06"], scns, plans_for(tier), RULE_CONC +
+                         "; every scenario ends with all threads joined and a single-threaded probe (drain every stream "
+                         "to Empty, send until Full), whose calls are not overlapped and must equal the model exactly")
+
+
+def check_C07(tier):
+    caps = caps_for(tier)
+    scns = (sc.disconnect("C07", "bcast", caps=caps) + sc.disconnect("C07", "mpmc", caps=caps) +
+            sc.disconnect("C07", "bcast", caps=caps[:2], fut=True) + sc.disconnect("C07", "mpmc", caps=caps[:1], fut=True) +
+            sc.blocking("C07b", "bcast", caps=caps[:1], waits=("busy", "block00")))
+    return generic_check("C07", tier, ["C07"], scns, plans_for(tier), RULE_CONC)
+
+
+def check_C08(tier):
+    caps = caps_for(tier)
+    waits = ("busy", "yield00", "block00") if tier == "quick" else ("busy", "yield00", "block00", "yield11", "block11",
+                                                                     "yield", "block")
+    scns = sc.blocking("C08", "bcast", caps=caps, waits=waits) + sc.blocking("C08", "mpmc", caps=caps, waits=waits)
+    for s in scns:
+        s["livelock"] = 3000
+    return generic_check("C08", tier, ["C08"], scns, plans_for(tier), RULE_CONC +
+                         "; a run that ends with a thread blocked (deadlock) or spinning without any state change "
+                         "(livelock) is reported as a stuck event, accepted only if the model has nothing for that thread")
+
+
+def check_C10(tier):
+    caps = caps_for(tier)
+    scns = (sc.add_stream_scn("C10", caps=caps) + sc.add_stream_scn("C10", caps=caps[:2], fut=True) +
+            sc.add_stream_scn("C10", caps=caps[:2], shared_parent=True))
+    return generic_check("C10", tier, ["C01C02", "C03", "C06"], scns, plans_for(tier), RULE_CONC)
+
+
+def check_C11(tier):
+    caps = caps_for(tier)
+    scns = (sc.remove_stream("C11", "bcast", caps=caps) + sc.remove_stream("C11", "bcast", caps=caps[:2], fut=True))
+    return generic_check("C11", tier, ["C11", "C06", "C03", "C01C02", "C08", "C14"], scns, plans_for(tier), RULE_CONC)
+
+
+def check_C12(tier):
+    caps = caps_for(tier)
+    scns = sc.population("C12", "bcast", caps=caps) + sc.population("C12", "mpmc", caps=caps)
+    return generic_check("C12", tier, ["C01C02", "C03", "C06", "C04", "C05"], scns, plans_for(tier), RULE_CONC)
+
+
+def check_C13(tier):
+    caps = caps_for(tier)
+    scns = []
+    for (fam, fut) in FAMILIES:
+        scns += sc.no_receivers("C13", fam, caps=caps[:2], fut=fut)
+    depth = 4 if tier == "quick" else 5
+    gens = []
+    for (fam, fut) in FAMILIES:
+        gens.append(dict(family=fam, fut=fut, cap=1, depth=depth, max_streams=3,
+                         ops=["send", "start_send", "drop", "unsub", "add_stream", "clone", "recv"]
+                         if fut else ["send", "drop", "unsub", "add_stream", "clone", "recv"]))
+    return generic_check("C13", tier, ["C13", "C14"], scns, plans_for(tier), RULE_CONC +
+                         "; plus all orders of dropping receivers generated from MQAbsGen", gens=gens)
+
+
+CHECKS = {"C01": check_C01, "C02": check_C02, "C03": check_C03, "C04": check_C04, "C05": check_C05, "C06": check_C06,
+          "C07": check_C07, "C08": check_C08, "C09": check_C09, "C10": check_C10, "C11": check_C11, "C12": check_C12,
+          "C13": check_C13}
 
 
 # =========================================================================== replay
